@@ -38,7 +38,7 @@ ASSUMPTIONS = ['a refusal is any raised exception; to_mnemonic refusing entropy 
                'Mnemonic(lang) is used with the language of the sentence; HDKey.from_passphrase has no language parameter',
                'only checksummed sentences (add_checksum/includes_checksum defaults) are judged']
 EXHAUSTIVE = ['all 2047 single-word substitutions at each sampled (sentence, position); quick: all 12 positions of one '
-              'sentence + 4 positions in other languages; thorough: all positions of 24 sentences']
+              'sentence + 4 positions in other languages; thorough: all positions of 12 sentences']
 
 K_PASS_NFKD = 'C14/to_seed/passphrase-not-nfkd'
 K_FROMPASS_LANG = 'C14/from_passphrase/non-english-sentence-refused'
@@ -440,8 +440,8 @@ def replay(case, col):
 def plan(tier, seed, scale=1.0):
     thorough = tier == 'thorough'
     nshard = 16
-    n_ent = int((30000 if thorough else 640) * scale)
-    n_sent = max(1, int((24 if thorough else 1) * scale))
+    n_ent = int((20000 if thorough else 640) * scale)
+    n_sent = max(1, int((12 if thorough else 1) * scale))
     extra_units = 0 if thorough else 4
     specs = []
     for i in range(nshard):
